@@ -55,6 +55,8 @@ type c40Prog struct {
 	// how the pipe-facing streams hand out what they read (io.Reader allows all of it)
 	ReadCap [2]int  `json:"read_cap"` // > 0: a Read returns at most this many bytes (short reads)
 	DataErr [2]bool `json:"data_err"` // the last bytes come together with the terminating error (abrupt mode only: it needs one read of look-ahead)
+	// the pipe-facing stream also has a CloseWrite method (TCP / unix / TLS connection shape)
+	HalfClose [2]bool `json:"has_close_write"`
 }
 
 var errC40Injected = errors.New("injected stream failure")
@@ -139,6 +141,15 @@ func (s *c40Stream) Close() error {
 	}
 	return nil
 }
+
+// c40HalfCloser is a c40Stream that also offers CloseWrite, as TCP, unix and TLS connections
+// do. The underlying pairs cannot half-close, so CloseWrite only counts.
+type c40HalfCloser struct {
+	*c40Stream
+	closeWrites atomic.Int32
+}
+
+func (h *c40HalfCloser) CloseWrite() error { h.closeWrites.Add(1); return nil }
 
 // c40Mem is a stream that plays a whole side: Read hands out the payload in
 // generated chunk sizes and reports the end as configured, Write collects what
@@ -290,11 +301,20 @@ func runC40(p c40Prog) c40Run {
 	allReceived := make(chan struct{}) // orderly: the ender has received the whole payload of the other user
 	var allOnce sync.Once
 
+	// optionally the pipe-facing streams are of a kind that can close its write direction on
+	// its own (like *net.TCPConn, *net.UnixConn, *tls.Conn); what Pipe owes its caller is the same
+	var ps [2]io.ReadWriteCloser
+	for i := range ps {
+		ps[i] = str[i]
+		if p.HalfClose[i] {
+			ps[i] = &c40HalfCloser{c40Stream: str[i]}
+		}
+	}
 	var errCh <-chan error
 	if p.Swap {
-		errCh = tun.Pipe(str[1], str[0])
+		errCh = tun.Pipe(ps[1], ps[0])
 	} else {
-		errCh = tun.Pipe(str[0], str[1])
+		errCh = tun.Pipe(ps[0], ps[1])
 	}
 
 	writer := func(i int) {
@@ -508,6 +528,9 @@ func runC40(p c40Prog) c40Run {
 	if p.Swap {
 		lab["args-swapped"] = true
 	}
+	if p.HalfClose[0] || p.HalfClose[1] {
+		lab["stream-has-CloseWrite"] = true
+	}
 	for l := range lab {
 		res.labels = append(res.labels, l)
 	}
@@ -543,6 +566,9 @@ func genC40(t *rapid.T) c40Prog {
 	}
 	p.Swap = rapid.Bool().Draw(t, "swap")
 	p.Ender = rapid.IntRange(0, 1).Draw(t, "ender")
+	for i := range p.HalfClose {
+		p.HalfClose[i] = rapid.IntRange(0, 2).Draw(t, "hasCloseWrite") == 0
+	}
 	for i := range p.ReadCap { // short reads from the pipe-facing streams
 		if rapid.IntRange(0, 2).Draw(t, "readCap?") == 0 {
 			lo := 1
